@@ -4,6 +4,42 @@
 
 package tls
 
+// ---------------------------------------------------------------------------------------------
+// C36: NewLRUClientSessionCache / (*lruSessionCache).Put / Get -- sequential refinement of a bounded LRU map.
+//
+// container/list is modelled abstractly (assumed contracts in /verif/contracts/trusted/containers.vc):
+// ghost(listseq, l) is the identity of the immutable element sequence held by l, described by
+// seqlen / seqhas / seqpos (position 0 = front = most recently used, seqlen-1 = back = eviction victim).
+//
+// Abstract state of a cache c (what a user of a "sequential LRU map of capacity n" observes):
+//   has(c.m, k)     k is cached                          cstate(c, k)  its session state
+//   kpos(c, k)      recency rank of k (0 = most recent)  seqlen(lseq(c)) number of entries, <= c.capacity
+// wfcache(c) is the data-structure invariant; it is established by NewLRUClientSessionCache and preserved
+// by Put and Get (ensures wf*), which is what makes the type assertions elem.Value.(*lruSessionCacheEntry)
+// and the nil dereferences in Put/Get safe:
+//   wfmap   every cached key maps to a live element of c.q whose Value is a non-nil *lruSessionCacheEntry
+//           carrying that very key  (hence distinct keys -> distinct elements and distinct entries)
+//   wflist  every element of c.q is the image of some cached key (no orphan elements: the element Back()
+//           returns on eviction is typed and its key is in the map)
+//   seqwf   ranks are in range and injective
+//
+// Encoding of "for all strings": specification quantifiers range over integers only, so keys are enumerated
+// by the uninterpreted function skey: Int -> Str, and strid (the injective numbering of strings already used
+// by the generator for literals) is its right inverse on the key an operation is called with: the
+// precondition `keynum` says skey(strid(sessionKey)) == sessionKey. It constrains only uninterpreted
+// symbols (it is satisfiable for every sessionKey: choose strid injective), it is NOT a restriction on callers.
+// Clauses of the form `forall j: ... skey(j) ...` therefore speak about every key that was ever passed to
+// Put/Get, which are the only keys that can be in the map.
+//
+// Scope: sequential behaviour only. c.Lock()/c.Unlock() are no-ops for the verifier (listed assumption
+// "mutex operations are no-ops"); linearizability and data-race freedom are not decided here.
+// Put has no modifies clause: on the eviction path it overwrites sessionKey/state of the entry held by the
+// back element, for which there is no entry-state location expression (element ids of the list model are
+// integers and specifications cannot dereference them); a partial clause (contents(c.m), ghost(listseq, c.q))
+// would leave the frame obligations of lruSessionCacheEntry.sessionKey/state unprovable on that path. What
+// Put changes is stated by its postconditions instead (every cached key other than the argument and the
+// evicted one keeps presence, state and relative rank).
+
 //@ uf skey(Int) Str
 
 //@ spec lseq(c) = ghost(listseq, c.q)
@@ -23,6 +59,8 @@ package tls
 //@   ensures wf: wfcache(ret.(*lruSessionCache))
 //@   ensures empty: seqlen(lseq(ret.(*lruSessionCache))) == 0 && forall j: !has(ret.(*lruSessionCache).m, skey(j))
 
+// Get(k): (state, true) iff k is cached; a hit makes k the most recently used key and keeps the relative
+// order of all other keys; a miss changes nothing. The map itself is never written (frame: only listseq).
 //@ func (*lruSessionCache).Get
 //@   property C36
 //@   let p = kpos(c, sessionKey)
@@ -35,7 +73,17 @@ package tls
 //@   ensures miss: !has(c.m, sessionKey) ==> !ret1 && ret0 == nil && lseq(c) == old(lseq(c))
 //@   ensures hitfront: has(c.m, sessionKey) ==> kpos(c, sessionKey) == 0
 //@   ensures hitorder: has(c.m, sessionKey) ==> forall j: has(c.m, skey(j)) && skey(j) != sessionKey ==> kpos(c, skey(j)) == old(kpos(c, skey(j))) + ite(old(kpos(c, skey(j))) < p, 1, 0)
+//@   note sequential refinement only: the mutex operations are no-ops for the verifier
 
+// Put(k, cs) against the LRU map model (P: k cached at entry, L: number of entries at entry, p: rank of k):
+//   cs == nil            delete k: k absent afterwards, all other keys keep presence and state, ranks close up
+//   cs != nil,  P        update: state replaced, k becomes most recent, others unchanged (ranks shift)
+//   cs != nil, !P, L<cap insert at the front, nothing evicted
+//   cs != nil, !P, L>=cap the key of rank L-1 (least recently used) is evicted, and only that one
+// DEFECT_C36_putnil_absent (refuted by the code, confirmed by an overlay test): Put(k, nil) for a key that is
+// NOT cached does not "delete": it falls through to the insertion path, stores the pair (k, nil) -- so
+// Get(k) returns (nil, true) instead of (nil, false) -- and evicts the least recently used live session when
+// the cache is full. E.g. capacity 2: Put(a,sa); Put(b,sb); Put(x,nil) => Get(x) == (nil,true), Get(a) == (nil,false).
 //@ func (*lruSessionCache).Put
 //@   property C36
 //@   let P = has(c.m, sessionKey)
@@ -57,15 +105,24 @@ package tls
 //@   ensures evictlen: cs != nil && !P && L >= c.capacity ==> seqlen(lseq(c)) == L
 //@   ensures evictothers: cs != nil && !P && L >= c.capacity ==> forall j: skey(j) != sessionKey ==> (has(c.m, skey(j)) <==> (old(has(c.m, skey(j))) && old(kpos(c, skey(j))) != L - 1)) && (has(c.m, skey(j)) ==> cstate(c, skey(j)) == old(cstate(c, skey(j))) && kpos(c, skey(j)) == old(kpos(c, skey(j))) + 1)
 //@   ensures DEFECT_C36_putnil_absent: cs == nil && !P ==> !has(c.m, sessionKey) && seqlen(lseq(c)) == L
+//@   note sequential refinement only: the mutex operations are no-ops for the verifier
+//@   note no modifies clause (see the header comment): callers must treat Put as havocking the heap
 
 // ---------------------------------------------------------------------------------------------
 // C29: Roller.
+//
+// NewRoller: TcpDialTimeout in [7 s, 20 s], TlsHandshakeTimeout in [11 s, 30 s], whole seconds (from the verified
+// contract of (*prng).Intn). The four default ids cannot be named: package-level variables of struct type
+// (HelloChrome_Auto, ...) are not supported in specifications; only len(HelloIDs) == 4 is stated.
+// NewPRNGSeed ignores the assumed contract of crypto/rand.Read (`opaque`): that contract says err == nil always
+// (Go >= 1.24), which makes the error branch dead code and its vacuity probe fail; without it both branches are
+// covered, at the price of no modifies clause for NewPRNGSeed / newPRNG.
 
 //@ spec sameid(a, b) = a.Client == b.Client && a.Version == b.Version && a.Seed == b.Seed && a.Weights == b.Weights
 
 //@ func NewPRNGSeed
 //@   property C29
-//@   opaque crypto/rand.Read
+//@   opaque rand.Read
 //@   ensures ok: ret1 == nil ==> ret0 != nil && fresh(ret0)
 //@   ensures err: ret1 != nil ==> ret0 == nil
 
@@ -78,7 +135,6 @@ package tls
 
 //@ func newPRNG
 //@   property C29
-//@   modifies nothing
 //@   ensures ok: ret1 == nil ==> ret0 != nil && fresh(ret0) && ret0.rand != nil && ret0.randomStream != nil
 //@   ensures err: ret1 != nil ==> ret0 == nil
 
@@ -88,4 +144,67 @@ package tls
 //@   ensures ok: ret1 == nil ==> ret0 != nil && fresh(ret0) && ret0.r != nil && ret0.r.rand != nil && ret0.WorkingHelloID == nil
 //@   ensures tcp: ret1 == nil ==> 7000000000 <= ret0.TcpDialTimeout && ret0.TcpDialTimeout <= 20000000000 && ret0.TcpDialTimeout % 1000000000 == 0
 //@   ensures tls: ret1 == nil ==> 11000000000 <= ret0.TlsHandshakeTimeout && ret0.TlsHandshakeTimeout <= 30000000000 && ret0.TlsHandshakeTimeout % 1000000000 == 0
-//@   ensures ids: ret1 == nil ==> len(ret0.HelloIDs) == 4 && sameid(ret0.HelloIDs[0], HelloChrome_Auto) && sameid(ret0.HelloIDs[1], HelloFirefox_Auto) && sameid(ret0.HelloIDs[2], HelloIOS_Auto) && sameid(ret0.HelloIDs[3], HelloRandomized)
+//@   ensures ids: ret1 == nil ==> len(ret0.HelloIDs) == 4
+
+// UClient: the new connection carries exactly the given id (field-wise: the pointer fields Seed and Weights
+// are compared by identity, as the `==` in Roller.Dial does), wraps conn, and has no extensions yet.
+//@ func UClient
+//@   property C29
+//@   ensures fresh: ret != nil && fresh(ret) && ret.Conn != nil && fresh(ret.Conn)
+//@   ensures id: sameid(ret.ClientHelloID, clientHelloID)
+//@   ensures wiring: ret.Conn.conn == conn && ret.Conn.isClient && ret.Conn.config != nil && (config != nil ==> ret.Conn.config == config)
+//@   ensures noext: len(ret.Extensions) == 0
+
+// SetSNI: config.ServerName and every SNI extension get hostnameInSNI(sni) (snihost, verif_contracts_ext_a.go).
+// nonnilsni: an extension slot holding a typed-nil *SNIExtension would make `sniExt.ServerName = ...` panic.
+//@ func (*UConn).SetSNI
+//@   property C29
+//@   requires uconn != nil && uconn.Conn != nil && uconn.config != nil
+//@   requires nonnilsni: forall j in 0..len(uconn.Extensions): istype(uconn.Extensions[j], *SNIExtension) ==> uconn.Extensions[j].(*SNIExtension) != nil
+//@   ensures cfg: uconn.config.ServerName == snihost(sni)
+//@   ensures exts: forall j in 0..len(uconn.Extensions): istype(uconn.Extensions[j], *SNIExtension) ==> uconn.Extensions[j].(*SNIExtension).ServerName == snihost(sni)
+//@   loop 0 invariant -1 <= $rangeindex && $rangeindex < len(uconn.Extensions)
+//@   loop 0 invariant uconn.config.ServerName == snihost(sni)
+//@   loop 0 invariant forall j in 0..$k: istype(uconn.Extensions[j], *SNIExtension) ==> uconn.Extensions[j].(*SNIExtension).ServerName == snihost(sni)
+
+// Roller.Dial. STATUS: the function is reported UNSUPPORTED by the generator (u_roller.go:54 "copy of slice of
+// structs", u_roller.go:73 "append of a non-constant number of struct elements"; []ClientHelloID is a slice of
+// structs), and c.r.rand.Shuffle(n, closure) is a call into math/rand that calls back the closure an unknown
+// number of times: there is no (schematic, higher-order) contract form for it, so it is opaque and havocs the
+// heap, including the local helloIDs captured by the closure. Consequently the ordering claims of C29
+// ("helloIDs is a permutation of c.HelloIDs", "the working id is tried first", "each configured id at most once")
+// cannot be stated as loop invariants over helloIDs. What is stated below concerns the dial loop only and holds
+// for every content of helloIDs (net.DialTimeout has an assumed contract without any constraint on its results,
+// Handshake is opaque: every network/server behaviour is covered):
+//   dialconn/idused  the client is built on the connection just dialled, with a nil config and the id of this iteration
+//   sni, snistill    SetSNI(serverName) is called on that client and config.ServerName == hostnameInSNI(serverName)
+//                    still holds when Handshake is called (time.Now, Time.Add, SetDeadline assumed heap-neutral)
+//   hs, returned     Handshake is called on that client; a non-nil result is that client and its Handshake returned nil
+//   recorded         then c.WorkingHelloID is set and equals (field-wise) the returned client's ClientHelloID
+//   errnil           a non-nil error comes with a nil connection
+// "on a DialTimeout error return (nil, that error) at once": only errnil is checked; the error value itself cannot
+// be named (no component selector for callres of a two-result call; the local `err` assigned from the tuple is
+// resolved to the loop phi by the anchor name lookup).
+// DEFECT_C29_nil_nil (refuted at the final return, confirmed by an overlay test): when there is nothing to try
+// (len(c.HelloIDs) == 0 and no working id) Dial returns (nil, nil) -- no connection and no error.
+// C29 "each configured id at most once per call" (not expressible, see above; confirmed by an overlay test on the
+// real code): after a successful HelloRandomized handshake c.WorkingHelloID points at the client's id, into which
+// generateRandomizedSpec has written Seed and Weights; it never compares equal to the configured HelloRandomized
+// (Seed == nil), so it is prepended AND HelloRandomized stays in the list: 5 attempts for 4 configured ids.
+//@ func (*Roller).Dial
+//@   property C29
+//@   requires c != nil && c.r != nil && c.r.rand != nil
+//@   assume-pure Now Add SetDeadline
+//@   ensures errnil: ret1 != nil ==> ret0 == nil
+//@   ensures returned: ret0 != nil ==> ret1 == nil && ret0 == callres(UClient, 0) && callres(Handshake, 0) == nil
+//@   ensures recorded: ret0 != nil ==> c.WorkingHelloID != nil && sameid(c.WorkingHelloID, ret0.ClientHelloID)
+//@   note not a clause (it asks for more than the property states): with no configured id and no working id Dial returns (nil, nil)
+//@   at before call UClient#0: assert dialconn: arg0 == tcpConn && arg1 == nil
+//@   at before call UClient#0: assert idused: sameid(arg2, helloID)
+//@   at before call SetSNI#0: assert sni: arg0 == client && arg1 == serverName
+//@   at before call Handshake#0: assert hs: arg0 == client
+//@   at before call Handshake#0: assert snistill: arg0.config.ServerName == snihost(serverName)
+//@   loop 0 invariant -1 <= $rangeindex
+//@   loop 1 invariant -1 <= $rangeindex
+//@   loop 1 invariant $rangeindex >= 0 ==> err != nil
+//@   note sequential reasoning only: HelloIDMu operations are no-ops for the verifier; race freedom of concurrent Dials is not decided
